@@ -7,26 +7,26 @@ CHECKS = {
  "C02": dict(
    level="model_checking",
    technique="stateless deviation-bounded model checking of the real RTCSctpTransport pair under a virtual-time loop and harness-owned wire",
-   text="Every execution of 8 traffic drivers with at most k (quick 2, thorough 3) network/timer deviations from the default FIFO policy is run on the real implementation; after the fault prefix the default policy is the healed network and the terminal oracle requires drained queues, bufferedAmount 0, complete delivery and a probe burst each way. Exhaustive within the stated bound, which is the unit the stall mechanisms live in (two lost datagrams and a timer).",
+   text="Every execution of 12 traffic drivers (incl. both TSN spaces starting at the wrap, stream sequence numbers at 65534, a partially reliable channel larger than cwnd next to the reliable one) with at most k (quick 2, thorough 3) network/timer deviations from the default FIFO policy is run on the real implementation; after the fault prefix the default policy is the healed network and the terminal oracle requires drained queues, bufferedAmount 0, complete delivery and a probe burst each way. Exhaustive within the stated bound, which is the unit the stall mechanisms live in (two lost datagrams and a timer).",
    note="DTLS replaced by a stand-in (state/_send_data/_register_data_receiver); transport send never suspends; clocks/random seams replaced by module attributes; bound k on deviations, 600 virtual seconds horizon.",
    design="2/C02"),
 }
 CHECKS["C01"] = dict(
    level="model_checking",
    technique="stateless deviation-bounded model checking of the real RTCSctpTransport pair (virtual-time loop, harness-owned wire); safety oracle at every quiescent point",
-   text="Every execution of 8 message-mix drivers (DCEP and negotiated channels, ordered/unordered, str/bytes/empty/multi-fragment, both roles, up to 3 concurrent channels, a 20-fragment message) with at most k (quick 1-2, thorough 2-4) drop/dup/reorder/timer/operation deviations is run on the real code and the exactly-once/in-order/intact clause is evaluated at every quiescent point.",
+   text="Every execution of 14 message-mix drivers (DCEP and negotiated channels, ordered/unordered, str/bytes/empty/multi-fragment, both roles, up to 3 concurrent channels, a 20-fragment message, a stream id re-used after close, TSN and stream sequence spaces starting at the wrap, partially reliable and lifetime-limited channels alongside) with at most k (quick 1-2, thorough 2-4) drop/dup/reorder/timer/operation deviations is run on the real code and the exactly-once/in-order/intact clause is evaluated at every quiescent point.",
    note="DTLS replaced by a stand-in; transport send never suspends; deviation bound k; payload values are channel-tagged patterns.",
    design="2/C01")
 CHECKS["C06"] = dict(
    level="model_checking",
    technique="stateless deviation-bounded model checking of the real RTCSctpTransport pair with reliable and partially reliable channels used concurrently",
-   text="Every execution of 6 drivers mixing reliable, maxRetransmits and maxPacketLifeTime channels (ordered/unordered, a message larger than cwnd) with at most k (quick 2, thorough 3) deviations; at every point whole-message/exact-copy/no-dup/order on partially reliable channels and the C01 clause on reliable ones; at the healed terminal point reliable traffic complete, queues drained and a fresh message delivered on every channel.",
+   text="Every execution of 9 drivers mixing reliable, maxRetransmits and maxPacketLifeTime channels (ordered/unordered, messages larger than cwnd, an older reliable chunk outstanding in front, abandoned messages straddling the 16-bit stream sequence wrap) with at most k (quick 2, thorough 3) deviations; at every point whole-message/exact-copy/no-dup/order on partially reliable channels and the C01 clause on reliable ones; at the healed terminal point reliable traffic complete, queues drained and a fresh message delivered on every channel.",
    note="DTLS stand-in; send never suspends; deviation bound k; expiry driven by the virtual clock.",
    design="2/C06")
 CHECKS["C17"] = dict(
    level="model_checking",
    technique="differential stateless deviation-bounded model checking (same schedule applied to two real associations / RTP receive pipelines that differ only in sequence-number origins) plus exhaustive enumeration of serial-number comparison pairs",
-   text="Every explored schedule (<= k deviations; quick 1-2, thorough 2-3) of 9 SCTP drivers is executed simultaneously on two real associations differing only in initial TSNs (2^32-1/-3/-8, hence RE-CONFIG sequence numbers) and stream sequence origins (65533..65535); enabled menus, observation logs, queue shapes and terminal verdicts must be identical. RTP side: jitter buffer, NACK generator, receiver statistics and sender history are driven through exhaustive arrival trees from small and near-wrap origins and compared. Serial arithmetic: all 2^32 16-bit pairs (thorough) / all a x 640 boundary offsets (quick), 32-bit boundary product.",
+   text="Every explored schedule (<= k deviations; quick 1-2, thorough 2-3) of 10 SCTP drivers (one resetting two streams per side) is executed simultaneously on two real associations differing only in initial TSNs (2^32-1/-3/-8, hence RE-CONFIG sequence numbers) and stream sequence origins (65533..65535); enabled menus, observation logs, queue shapes and terminal verdicts must be identical. RTP side: jitter buffer, NACK generator, receiver statistics and sender history are driven through exhaustive arrival trees from small and near-wrap origins and compared. Serial arithmetic: all 2^32 16-bit pairs (thorough) / all a x 640 boundary offsets (quick), 32-bit boundary product.",
    note="DTLS stand-in; send never suspends; deviation bound k; origins taken from a listed set next to the wrap points.",
    design="2/C17")
 CHECKS["C07"] = dict(
@@ -50,19 +50,19 @@ CHECKS["C16"] = dict(
 CHECKS["C12"] = dict(
    level="model_checking",
    technique="explicit-state breadth-first search to the fixpoint over the real RtpRouter (exact canonical state), every operation applied in every reachable state and compared with a reference model; shallow history search through the real RTCDtlsTransport handlers",
-   text="All reachable states of the real RtpRouter for small universes (2-3 receivers, 1-2 senders, 2-3 SSRCs, 1-3 payload types) are enumerated by BFS with an exact canonical state (every attribute of the router); in each state the complete alphabet - register_receiver with every SSRC subset x payload-type subset, unregister, sender (un)registration, RTP with every (ssrc, pt), SR/RR/BYE/REMB with every SSRC subset, NACK, PLI, SDES, malformed REMB - is applied to a copy of the real object and to a dict-based reference model and the answers compared; plus all histories of length <= 3 through RTCDtlsTransport._register_*/_handle_rtp_data/_handle_rtcp_data with serialised packets, comparing the callbacks invoked.",
+   text="All reachable states of the real RtpRouter for small universes (2-3 receivers, 1-2 senders, 2-3 SSRCs, 1-3 payload types) are enumerated by BFS with an exact canonical state (every attribute of the router); in each state the complete alphabet - register_receiver with every SSRC subset x payload-type subset, unregister, sender (un)registration, RTP with every (ssrc, pt), SR/RR/BYE/REMB with every SSRC subset, NACK, PLI, REMB with a media source and an SSRC list, SDES, malformed REMB - is applied to a copy of the real object and to a dict-based reference model and the answers compared; plus all histories of length <= 3 through RTCDtlsTransport._register_*/_handle_rtp_data/_handle_rtcp_data with serialised packets, comparing the callbacks invoked; and 48 compound RTCP datagrams whose first recipient's handler yields while the second packet's recipient is (or is not) unregistered.",
    note="Universe bounded as listed in the evidence; mid is not used for routing by the implementation.",
    design="2/C12")
 CHECKS["C10"] = dict(
    level="model_checking",
    technique="explicit-state exploration of the real JitterBuffer as a complete depth-bounded tree of arrival sequences (all sequences up to depth D over a 14-symbol offset alphabet, from 3 start states), oracle on extended indices after every add; exhaustive bounded-displacement permutations for completeness",
-   text="Every arrival sequence of length <= 4 (quick) / 5 (thorough), and one level deeper on 8 configurations, over offsets {+1,+2,+3,dup,-1,-2,-3,+cap-1,+cap,+cap+1,-99,-100,-101,+32767} relative to the highest sequence seen is applied to the real JitterBuffer from an empty, an almost full and an already overflowed buffer, for 96 configurations (capacity 4..128, prefetch 0..4, audio/video, first sequence number 0 / 65530, two frame-size patterns). After every add: no exception, occupancy, frame = consecutive received packets with one timestamp, no reuse / monotone order while nothing arrived >= 100 late, PLI on discard. Completeness over all bounded-displacement permutations with an in-order continuation.",
+   text="Every arrival sequence of length <= 4 (quick) / 5 (thorough), and one level deeper on 8 configurations, over offsets {+1,+2,+3,dup,-1,-2,-3,+cap-1,+cap,+cap+1,-99,-100,-101,+32767} relative to the highest sequence seen is applied to the real JitterBuffer from an empty, an almost full and an already overflowed buffer, for 96 configurations (capacity 4..128, prefetch 0..4, audio/video, first sequence number 0 / 65530, two frame-size patterns). After every add: no exception, occupancy, frame = consecutive received packets with one timestamp, no reuse / monotone order while nothing arrived >= 100 late, PLI on discard. Completeness over all bounded-displacement permutations with an in-order continuation, and already at the end of the stream for the orders in which no single arrival makes two frames releasable.",
    note="Extended indices kept by the harness; completeness demanded only for displacement bounds where the statement's premise certainly holds (see DESIGN 2/C10).",
    design="2/C10")
 CHECKS["C18"] = dict(
    level="model_checking",
    technique="explicit-state exploration as a complete depth-bounded tree of arrival/report histories replayed on the real RTCRtpReceiver (virtual loop, clock seam), every emitted report compared with an RFC 3550 reference model; deeper tree on the bare StreamStatistics with per-node copies",
-   text="Every history of length <= 5/4 (quick) or 6/5 (thorough) over 14 symbols (new frame, same timestamp, losses, duplicate, late packets, +300 / +32767 jumps, arrival clock jumping back, timestamp jump, burst, report timer, second SSRC), from start sequence/timestamp at 0 and just before the 16/32-bit wrap, is replayed on a fresh real RTCRtpReceiver whose own _run_rtcp task emits the receiver report through a transport stand-in; every report block and getStats() is compared with a reference model written from RFC 3550 A.1/A.3/A.8, and the RTCP task must survive (every value fits its field). The same tree one level deeper (6/7) on the bare StreamStatistics object.",
+   text="Every history of length <= 5/4 (quick) or 6/5 (thorough) over 16 symbols (new frame, same timestamp, timestamp stepping backwards, losses, duplicate, late packets, +300 / +32767 jumps, arrival clock jumping back 1 s and being set forward by 10^9 s, timestamp jump, burst, report timer, second SSRC), from start sequence/timestamp at 0 and just before the 16/32-bit wrap, the arrival clock starting 50 ms below a multiple of 2^32 ticks, is replayed on a fresh real RTCRtpReceiver whose own _run_rtcp task emits the receiver report through a transport stand-in; every report block and getStats() is compared with a reference model written from RFC 3550 A.1/A.3/A.8, and the RTCP task must survive (every value fits its field). The same tree one level deeper (6/7) on the bare StreamStatistics object.",
    note="Decoder thread and RTCP interval randomness replaced through module-attribute seams; jitter pairing follows the implementation (statement leaves it open).",
    design="2/C18")
 CHECKS["C15"] = dict(
@@ -74,49 +74,49 @@ CHECKS["C15"] = dict(
 CHECKS["C13"] = dict(
    level="model_checking",
    technique="stateless deviation-bounded model checking of the real RTCSctpTransport/RTCDataChannel pair with the application program enumerated from a grammar (operations x anchors relative to association set-up x peer behaviour x roles x reliability), lifecycle oracle at every quiescent point",
-   text="1426 (quick) / 4086 (thorough) programs - every script of <= 2/3 operations {create auto-id channel, create negotiated pair, send, send burst with threshold, close, stop} with anchors {before start, INIT in flight, COOKIE in flight, established, same instant} x peer behaviour {idle, echo then close, create at the same instant, create and close} x client/server role x reliability - each explored with all executions of <= 1 (<= 2 for short scripts in thorough) drop/dup/reorder/timer/operation deviations on the real code, plus 83 (label, protocol) pairs over Unicode. Oracle: one faithful datachannel event, id uniqueness, forward-only readyState with <= 1 open/close, exact bufferedAmount and bufferedamountlow crossings at every point; after healing: closed on both ends, freed id re-usable under loss, all closed when the association ended.",
-   note="DTLS stand-in; send never suspends; bufferedAmount reference read from the transport's message queue; empty messages (1 placeholder byte) allowed as slack; one open known finding (close before establishment).",
+   text="1 466 (quick) / 4 194 (thorough) programs - every script of <= 2/3 operations {create auto-id channel, create negotiated pair, send, send burst with threshold, close, stop} with anchors {before start, INIT in flight, COOKIE in flight, established, same instant} x peer behaviour {idle, echo then close, create at the same instant, create and close} x client/server role x reliability - all with both initial TSNs at 2^32-1 (TSNs and RE-CONFIG request sequence numbers wrap inside every program), each explored with all executions of <= 1 (<= 2 for short scripts in thorough and for four programs in quick) drop/dup/reorder/timer/operation deviations on the real code, plus 83 (label, protocol) pairs over Unicode. Oracle: one faithful datachannel event, id uniqueness, forward-only readyState with <= 1 open/close, exact bufferedAmount and bufferedamountlow crossings (amount read inside the handler at or below the threshold) at every point; after healing: closed on both ends, freed id re-usable under loss and unaffected by a late duplicate of the old reset request, all closed when the association ended.",
+   note="DTLS stand-in; send never suspends; bufferedAmount reference read from the transport's message queue; empty messages (1 placeholder byte) allowed as slack.",
    design="2/C13")
 CHECKS["C14"] = dict(
    level="model_checking",
    technique="explicit-state exploration of call histories: the complete tree of enabled operations up to depth D is enumerated on a JSEP reference model and every history is replayed on a fresh pair of real RTCPeerConnections, comparing outcome, state and side effects after every call",
-   text="All call histories of length 5 (quick: 151 330) / 6 (thorough) over both peers x {createOffer, createAnswer, setLocal(own offer), setLocal(own answer), implicit setLocal, setRemote(peer's offer), setRemote(peer's answer), setRemote(answer with a dropped / re-typed m-section), setRemote(description without ice-ufrag / rtcp-mux, answer with actpass), close} are replayed on real peer connections (virtual loop, fake ICE); after every call the outcome class, signalingState and, for failed calls, unchanged signalingState/localDescription/remoteDescription and the absence of events are compared with the JSEP table; closed is absorbing.",
+   text="All call histories of length 5 (quick) / 6 (thorough) from the initial state and of length 3 / 4 from two non-initial states (a completed round by either peer, then addTransceiver), plus the close()-in-progress family (close() started, run to its first wait, and every call made while it is pending), over both peers x {createOffer, createAnswer, setLocal(own offer), setLocal(own answer), implicit setLocal, setRemote(peer's offer), setRemote(peer's answer), setRemote(answer with a dropped / re-typed m-section), setRemote(description without ice-ufrag / rtcp-mux, answer with actpass), close} are replayed on real peer connections (virtual loop, fake ICE); after every call the outcome class, signalingState and, for failed calls, unchanged signalingState/localDescription/remoteDescription and the absence of events are compared with the JSEP table; closed is absorbing.",
    note="aioice replaced by a fake connection; createOffer while a remote offer is pending left unconstrained; artefacts of an earlier round may be accepted or rejected with ValueError; events of successful calls are not constrained.",
    design="2/C14")
 CHECKS["C03"] = dict(
    level="model_checking",
    technique="bounded-exhaustive enumeration of the configuration product; every configuration negotiated and connected between two real RTCPeerConnections on a virtual-time loop (fake ICE, real SDP/DTLS/SCTP), with follow-up negotiation rounds",
-   text="The complete product {offerer media item (kind x direction x addTrack/addTransceiver x codec preferences) | none (thorough: two items)} x data channel x bundle policy x answerer pre-created transceivers {none, audio, video, both} x with/without track x data channel x bundle policy (4 842 quick / 120 078 thorough configurations) plus four follow-up rounds (add the other kind, add a transceiver of the same kind, add a data channel, swap the offering side) is pushed through the real offer/answer code; oracle: no call raises, both stable, answer mirrors the offer's sections/BUNDLE/codecs/payload types/RTX pairing/rtcp-fb/header-extension ids, definite DTLS role, complementary directions, and the session connects: both connected, negotiated channels open, a message per channel delivered.",
-   note="aioice replaced by a fake connection that pairs like ICE; tracks never yield media; one open known finding (idle un-negotiated transport keeps connectionState at 'connecting').",
+   text="The complete product {offerer media item (kind x direction x addTrack/addTransceiver x codec preferences) | none (thorough: two items)} x data channel x bundle policy x answerer pre-created transceivers {none, audio, video, both} x with/without track x data channel x bundle policy (4 842 quick / 120 078 thorough configurations; every one with media also against a peer that numbers payload types and header extensions differently and offers neither nack pli nor abs-send-time) plus four follow-up rounds (add the other kind, add a transceiver of the same kind, add a data channel, swap the offering side; also started early while ICE is still checking) is pushed through the real offer/answer code; oracle: no call raises, both stable, answer mirrors the offer's sections/BUNDLE/codecs/payload types/RTX pairing/rtcp-fb/header-extension ids, definite DTLS role, complementary directions, and the session connects: both connected, negotiated channels open, a message per channel delivered; per worker a reference configuration gives identical descriptions before and after all other sessions (nothing leaks between sessions).",
+   note="aioice replaced by a fake connection that pairs like ICE; tracks never yield media; identifiers and the o= clock are deterministic seams.",
    design="2/C03")
 CHECKS["C09"] = dict(
    level="model_checking",
    technique="bounded-exhaustive enumeration: every description generated over the C03 configuration product (compared with the live objects that produced it), a product of constructed descriptions, all single-line edits of those texts, and the full product of candidate-line shapes, through the real parser and serialiser",
-   text="(a) every createOffer/createAnswer/localDescription text over the C03 quick product with follow-up rounds is a fixed point of parse-then-serialise and its parsed fields equal the live transceivers/senders/ICE gatherers/DTLS/SCTP objects at generation time; (b) constructed SessionDescription objects over present/absent x 2-3 values of every optional attribute and 1-3 sections are field-equal after a round trip; (c) every single line deletion, duplication and adjacent swap of those texts that the parser accepts is idempotent under one more round; (d) 103 680 candidate lines round-trip exactly, also through the signalling helpers.",
+   text="(a) every createOffer/createAnswer/localDescription text over the C03 quick product with follow-up rounds is a fixed point of parse-then-serialise and its parsed fields equal the live transceivers/senders/ICE gatherers/DTLS/SCTP objects at generation time; (b) constructed SessionDescription objects over present/absent x 2-3 values of every optional attribute and 1-3 sections are field-equal after a round trip; (c) every single line deletion, duplication and adjacent swap of those texts that the parser accepts is idempotent under one more round; (d) 103 680 candidate lines round-trip exactly, also through the signalling helpers, and parsed twice for two media sections (each parse its own object).",
    note="Texts rejected by the parser with an exception are out of scope here (C05); attribute values from 2-3 listed values each.",
    design="2/C09")
 CHECKS["C19"] = dict(
    level="model_checking",
    technique="stateless exploration of interruption points: the scripted life of a real RTCPeerConnection pair is stepped one event-loop callback at a time and close() is injected at every cut index, for every closer, on the virtual-time loop; terminal oracle on states, events, tasks and threads",
-   text="For 4 (quick) / 8 (thorough) connection shapes, EVERY cut index of the life script (creation, offer/answer, ICE, real DTLS handshake, SCTP set-up, data messages, RTCP timers; every await boundary is a cut) x closers {A, B, both at once, A twice concurrently, A after its peer vanished}: replay to the cut, start close(), continue under the default policy. Oracle: close() completes within 30 virtual seconds, second close() is a no-op, signaling/ICE/connection states closed, every channel closed, received tracks ended and their consumers released, no event after completion, no task pending and no decoder thread alive once both sides are closed, no task died with an exception.",
-   note="aioice replaced by a fake connection (no consent-freshness timers); tracks produce no media in this harness; set iteration order over transports is address dependent, so a replay in another process may hit a neighbouring instant.",
+   text="For 6 (quick) / 10 (thorough) connection shapes - one / three of them with encoded Opus / VP8 media flowing through the real, step-synchronised decoder threads - EVERY cut index of the life script (creation, offer/answer, ICE, real DTLS handshake, SCTP set-up, data messages, RTCP timers, the application closing a channel and stopping a transceiver itself and reopening a channel whenever one closes, finally an SCTP SHUTDOWN from the peer; every await boundary is a cut) x closers {A, B, both at once, A twice concurrently, A after its peer vanished}: replay to the cut, start close(), continue under the default policy. Oracle: close() completes within 30 virtual seconds, second close() is a no-op, signaling/ICE/connection states closed, every channel closed, received tracks ended and their consumers released, no event after completion, no task pending, no timer scheduled and no decoder thread alive once both sides are closed, no task died with an exception. Plus one lost datagram after the cut (each datagram sent once close() has started, in turn) and the decoder-backlog family (workers held before close(): no decoder thread may be running when close() returns).",
+   note="aioice replaced by a fake connection (no consent-freshness timers); tracks produce no media or already encoded packets (no encoder executor threads); set iteration order over transports is address dependent, so a replay in another process may hit a neighbouring instant.",
    design="2/C19")
 CHECKS["C04"] = dict(
    level="model_checking",
    technique="bounded-exhaustive enumeration of fingerprint lists, SRTP profile preference matrices, role assignments and single-bit corruptions, each run through two real RTCDtlsTransport objects performing the real OpenSSL handshake on the virtual loop",
-   text="All fingerprint lists of length <= 2 (quick) / 3 (thorough) over a 24-entry alphabet derived from the peer's real certificate (three supported hashes x correct in three casings / wrong first or last digit / truncated, algorithm-name casing, unsupported algorithms) decide connected vs failed against the property's sentence, with a failed side handed nothing and refusing to send; every ordered SRTP profile list on each side x both role assignments connects iff the lists intersect and a battery of RTP/RTCP/data messages arrives intact both ways; every single-bit flip of every protected battery datagram is discarded without taking the transport down.",
+   text="All fingerprint lists of length <= 2 (quick) / 3 (thorough) over a 24-entry alphabet derived from the peer's real certificate (three supported hashes x correct in three casings / wrong first or last digit / truncated, algorithm-name casing, unsupported algorithms) decide connected vs failed against the property's sentence, with a failed side handed nothing and refusing to send; every ordered SRTP profile list on each side x both role assignments connects iff the lists intersect and a battery of RTP/RTCP/data messages, one RTP and one RTCP datagram per possible first byte 0x80-0xBF included, arrives intact both ways; every single-bit flip of every protected battery datagram, every forged plaintext datagram and every protected datagram with a replaced body is discarded without taking the transport down.",
    note="Fault-free handshakes only (OpenSSL's DTLS timer reads the wall clock); ICE replaced by in-memory queues; payload values limited to the battery.",
    design="2/C04")
 CHECKS["C11"] = dict(
    level="model_checking",
    technique="stateless deviation-bounded model checking of a real RTCRtpSender -> RTCDtlsTransport router -> RTCRtpReceiver pipeline on the virtual-time loop with a harness-owned network in both directions; safety oracle at every point, recovery oracle at the terminal point",
-   text="16 scenarios (VP8 / H.264 x RTX negotiated or not x first sequence number and timestamp origin small or just before the wrap; frames of 1-8 packets, the 15-bit VP8 picture id wrapping inside the run) x all executions with <= k deviations (quick 1-2, thorough 2-3): drop / duplicate / reorder on the media and the feedback path, frame or timer first. Safety at every point: every buffer handed to the decoder is byte-identical to a sent frame (a tail only first or after a PLI), in sending order with consistent mapped timestamps, NACK <= 128 numbers, no task dies. Recovery (faults on first transmissions only, feedback and retransmissions get through, three more frames follow): every lost packet is NACKed and resent (as RTX iff negotiated), every frame reaches the decoder exactly once.",
+   text="20 scenarios (VP8 / H.264 x RTX negotiated or not x first sequence number and timestamp origin small or just before the wrap; frames of 1-8 packets, the 15-bit VP8 picture id wrapping inside the run) x all executions with <= k deviations (quick 1-2, thorough 2-3): drop / duplicate / reorder on the media and the feedback path, frame or timer first. Safety at every point: every buffer handed to the decoder is byte-identical to a sent frame (a tail only first or after a PLI), in sending order with consistent mapped timestamps, NACK <= 128 numbers, no task dies. Recovery (faults on first transmissions only, feedback and retransmissions get through, three more frames follow): every lost packet is NACKed and resent (as RTX iff negotiated), every frame reaches the decoder exactly once; in the burst17 / burst33 scenarios an outage swallowing 17 / 33 consecutive first transmissions is one deviation.",
    note="SRTP replaced by identity sessions; decoder thread replaced by a no-op and tapped at the decoder queue; packets sent before the first one the receiver ever sees are exempt (no gap is visible for them).",
    design="2/C11")
 CHECKS["C05"] = dict(
    level="model_checking",
    technique="bounded-exhaustive enumeration of structure-aware input families (all short strings; every truncation, single-bit flip and boundary-byte replacement of seed packets with checksum/tag re-sealed; boundary products of every length/count/offset field) delivered to the real entry points in a set of protocol states reached by scripted prefixes, under a CPU watchdog",
-   text="6.6 million datagrams (quick): 10 wire parsers (value or ValueError only); RTCSctpTransport._handle_data in 7 protocol states (before INIT, COOKIE-WAIT, COOKIE-ECHOED, established idle / data outstanding / reassembling / reset pending) with mutations of 17 live packets and boundary products for chunk and parameter lengths, SACK gap blocks, TSNs around the live association, stream ids, PPIDs, DCEP lengths and invalid UTF-8, FORWARD TSN lists and bundled INIT; RTCDtlsTransport._handle_rtp_data/_handle_rtcp_data with a live receiver and sender behind the real router (extension id x length products, RTX payload sizes, descriptor truncations, RTCP count/length products, REMB counts); the empty datagram. Oracle: no exception out of the entry point, 0.5 s CPU watchdog, bounded container growth, rejected packets leave the association state unchanged, association only ended by ABORT/SHUTDOWN, valid traffic still flows afterwards.",
+   text="6.6 million datagrams (quick): 10 wire parsers (value or ValueError only); RTCSctpTransport._handle_data in 8 protocol states (before INIT, COOKIE-WAIT, COOKIE-ECHOED, established idle / data outstanding / reassembling / a gap before a held fragment / reset pending; the established ones also with both TSN spaces straddling 2^32) with mutations of 17 live packets and boundary products for chunk and parameter lengths, SACK gap blocks, TSNs around the live association, stream ids, PPIDs, DCEP lengths and invalid UTF-8, FORWARD TSN lists and bundled INIT; RTCDtlsTransport._handle_rtp_data/_handle_rtcp_data with a live receiver and sender behind the real router (extension id x length products, RTX payload sizes, descriptor truncations, RTCP count/length products, REMB counts); the empty datagram; the real decoder worker for five codecs x empty, tiny, garbage and oversized frames between valid ones. Oracle: no exception out of the entry point, 1 s CPU watchdog (a hit confirmed with 10 s on a fresh object) and a 300 s CPU budget per task, bounded container growth, rejected packets leave the association state unchanged, association only ended by ABORT/SHUTDOWN, valid traffic still flows afterwards.",
    note="All byte strings up to MTU cannot be enumerated: the claim is exactly the listed families. After packets that are valid for the live association and consume sequence space the follow-up exchange is not demanded (they ARE the peer as far as the protocol can tell).",
    design="2/C05")
 NOT_YET = {}
